@@ -12,9 +12,11 @@ pub struct GrevmConfig { pub force_sequential: bool, pub min_parallel_txs: usize
 pub struct ReservePlanner { pub p: u8 }
 #[verifier::external_body] #[verifier::reject_recursive_types(T)] pub struct OnceLock<T> { p: core::marker::PhantomData<T> }
 impl<T> OnceLock<T> {
+    /// one fixed view per call
+    pub uninterp spec fn cur(&self) -> Option<T>;
     /// first value wins; the closure is consumed
     #[verifier::external_body] pub fn get_or_init<F: FnOnce() -> T>(&self, f: F) -> (r: &T) { unimplemented!() }
-    #[verifier::external_body] pub fn get(&self) -> (r: Option<&T>) { unimplemented!() }
+    #[verifier::external_body] pub fn get(&self) -> (r: Option<&T>) ensures (match r { Some(x) => Some(*x), None => None }) == self.cur() { unimplemented!() }
 }
 #[verifier::external_body] #[derive(Clone, Copy)] pub struct Instant { p: u8 }
 pub type Duration = u64;   // only compared against STALL_TIMEOUT (stall logging)
